@@ -81,6 +81,20 @@ def gen_cases(tier, seed):
                  save_every=10, field_units="mT", current_units="uA", output="file", terminal_psi=[0.5, [0.3, 0.4], -0.7, 1.0][j % 4])
         drive = {"A": S.field_spec(rng, dev, o, "uniform", b=0.3), "currents": S.current_spec(rng, dev, o, "const", strength=0.3)}
         cases.append({"device": dev, "options": o, "drive": drive, "monitors": ["adaptive"], "kind": "pinned_nonzero", "cost": 8})
+    for j in range(1 if tier == "quick" else 3):
+        # a window longer than a thousand steps: delta is the mean over the whole window, however long
+        dev = zoo.gen_device(rng, n_terminals=0, n_holes=0, probes=0, size="tiny", gamma=1.0)
+        o = dict(adaptive=True, adaptive_window=int([1100, 1500, 2500][j]), adaptive_time_step_multiplier=0.25, max_solve_retries=10, dt_init=1e-3, dt_max=10.0,
+                 solve_time=float([1.1, 1.5, 2.5][j]) + 3.0, save_every=200, field_units="mT", current_units="uA", output="file")
+        drive = {"A": S.field_spec(rng, dev, o, "uniform", b=0.7)}  # fast initial relaxation: delta ~ 1e-3, proposals far below dt_max
+        cases.append({"device": dev, "options": o, "drive": drive, "monitors": ["adaptive"], "kind": "long_window", "cost": 15})
+    for j in range(2 if tier == "quick" else 6):
+        # ONE SolverOptions object: first a fixed-step run, then adaptivity is switched on and the same object is used again
+        dev = zoo.gen_device(rng, n_terminals=int([0, 2][j % 2]), n_holes=0, probes=0, size="small", gamma=float([10.0, 1.0][j % 2]))
+        o = dict(adaptive=True, adaptive_window=int([5, 2][j % 2]), adaptive_time_step_multiplier=0.25, max_solve_retries=10, dt_init=1e-3, dt_max=0.1, solve_time=3.0,
+                 save_every=10, field_units="mT", current_units="uA", output="file")
+        drive = {"A": S.field_spec(rng, dev, o, "uniform", b=0.3), "currents": S.current_spec(rng, dev, o, "const", strength=0.2)}
+        cases.append({"device": dev, "options": o, "drive": drive, "monitors": ["adaptive"], "kind": "options_reused", "cost": 8})
     return cases
 
 
@@ -127,7 +141,36 @@ def run_case(spec):
         for k in ("retries_seen", "exhaustions_seen", "proposal_changes", "proposal_rule_checks", "proposal_at_dt_max"):
             C.setdefault(k, 0)
 
-    out = S.run_sim_case(spec, "C12", extra_listeners=[tm], post=post)
+    run_kwargs = {}
+    pre_violations = []
+    if spec["kind"] == "options_reused":
+        import dataclasses
+
+        device, why = zoo.try_build_device(spec["device"])
+        if device is None:
+            return {"violations": [], "counters": {"refused_mesh": 1}, "classes": ["refused"], "nontrivial": False}
+        want = dict(spec["options"])
+        first = dict(want, adaptive=False, solve_time=20 * want["dt_init"])
+        opts = sim.build_options(first, output_file=None)
+        before = dataclasses.asdict(opts)
+        r0 = sim.run_sim(dict(spec, options=first), [], device=device, options_obj=opts)
+        if r0.refused:
+            return {"violations": [], "counters": {"refused_mesh": 1}, "classes": ["refused"], "nontrivial": False}
+        r0.cleanup()
+        after = dataclasses.asdict(opts)
+        changed = [k for k in before if k not in ("output_file", "progress_interval", "pause_on_interrupt") and before[k] != after[k]]
+        if changed:
+            pre_violations.append({"kind": "solve_changes_callers_options", "mechanism": "solve_changes_callers_options",
+                                   "detail": {"fields": changed, "before": {k: before[k] for k in changed}, "after": {k: after[k] for k in changed}}})
+        opts.adaptive = True
+        opts.solve_time = want["solve_time"]
+        run_kwargs = dict(device=device, options_obj=opts)
+    out = S.run_sim_case(spec, "C12", extra_listeners=[tm], post=post, **run_kwargs)
+    if pre_violations and "violations" in out:
+        out["violations"] = pre_violations + out["violations"]
+        out.setdefault("counters", {})["options_reuse_checks"] = 1
+    elif run_kwargs and "counters" in out:
+        out["counters"]["options_reuse_checks"] = 1
     if out.get("status") == "harness_error":
         return out
     C = out["counters"]
